@@ -2,7 +2,7 @@
 replies and residue observed.  Used by harness/props/c10.py."""
 import vnet
 
-DEV_ADDR, RAW_ADDR, CLI_ADDR = 1, 9, 2
+DEV_ADDR, RAW_ADDR, CLI_ADDR, RAW2_ADDR = 1, 9, 2, 8
 
 
 class Device:
@@ -21,6 +21,7 @@ class Device:
             ReadWritePropertyServices, ReadWritePropertyMultipleServices, ChangeOfValueServices, FileServices],
             max_apdu=1476)
         self.raw = vnet.RawNode(self.lan, RAW_ADDR, promiscuous=False)
+        self.raw2 = vnet.RawNode(self.lan, RAW2_ADDR, promiscuous=False)
         self.dev.add_object(AnalogValueObject(objectIdentifier=('analogValue', 1), objectName='av1',
                                               presentValue=72.5, statusFlags=[0, 0, 0, 0], covIncrement=1.0))
         self.dev.add_object(BinaryValueObject(objectIdentifier=('binaryValue', 1), objectName='bv1',
@@ -74,10 +75,10 @@ class Device:
         errs = self.clock.run(seconds)
         return errs
 
-    def replies(self):
-        """frames the device sent to the raw node, decoded minimally: (apdu_type, invoke_id, octets)"""
+    def replies(self, both=False):
+        """frames the device sent to the raw node(s), decoded minimally: (apdu_type, invoke_id, octets)"""
         out = []
-        for src, dst, data in self.raw.frames:
+        for src, dst, data in (self.raw.frames + self.raw2.frames if both else self.raw.frames):
             if src != str(DEV_ADDR):
                 continue
             r = parse_npdu_apdu(data)
@@ -124,6 +125,36 @@ def parse_npdu_apdu(data):
 
 def npdu(apdu, expecting_reply=True):
     return bytes([0x01, 0x04 if expecting_reply else 0x00]) + bytes(apdu)
+
+
+def npdu_routed(apdu, snet, sadr, expecting_reply=True):
+    """a frame as a router would deliver it: SNET/SADR of the remote originator present"""
+    return bytes([0x01, 0x08 | (0x04 if expecting_reply else 0), snet >> 8, snet & 255, len(sadr)]) + bytes(sadr) + bytes(apdu)
+
+
+def unconfirmed_requests():
+    """valid unconfirmed requests: [(name, apdu octets)]"""
+    return [
+        ('WhoIs', bytes([0x10, 0x08])),
+        ('WhoIs-range', bytes([0x10, 0x08, 0x09, 0x00, 0x19, 0x0A])),
+        ('IAm', bytes([0x10, 0x00, 0xC4, 0x02, 0x00, 0x00, 0x63, 0x22, 0x04, 0x00, 0x91, 0x03, 0x21, 0x07])),
+        ('UnconfirmedTextMessage', bytes([0x10, 0x05, 0x0C, 0x02, 0x00, 0x00, 0x63, 0x29, 0x00, 0x3D, 0x03, 0x00, 0x68, 0x69])),
+        ('TimeSynchronization', bytes([0x10, 0x06, 0xA4, 0x7B, 0x01, 0x0F, 0x07, 0xB4, 0x0A, 0x0B, 0x0C, 0x00])),
+        ('WhoHas', bytes([0x10, 0x07, 0x2C, 0x00, 0x80, 0x00, 0x01])),
+        ('UnconfirmedPrivateTransfer', bytes([0x10, 0x04, 0x09, 0x07, 0x19, 0x01])),
+    ]
+
+
+def other_confirmed(invoke):
+    """well-framed confirmed requests for services the device does not implement: [(name, apdu)]"""
+    hdr = bytes([0x00, 0x05, invoke])
+    return [
+        ('AddListElement', hdr + bytes([0x08, 0x0C, 0x00, 0x80, 0x00, 0x01, 0x19, 0x55, 0x3E, 0x44, 0x00, 0x00, 0x00, 0x00, 0x3F])),
+        ('ConfirmedTextMessage', hdr + bytes([0x13, 0x0C, 0x02, 0x00, 0x00, 0x63, 0x29, 0x00, 0x3D, 0x03, 0x00, 0x68, 0x69])),
+        ('ReinitializeDevice', hdr + bytes([0x14, 0x09, 0x00])),
+        ('ConfirmedPrivateTransfer', hdr + bytes([0x12, 0x09, 0x07, 0x19, 0x01])),
+        ('DeleteObject', hdr + bytes([0x0B, 0xC4, 0x00, 0x80, 0x00, 0x01])),
+    ]
 
 
 def encode_request(req, invoke_id, max_resp_code=5, seg_accepted=False):
